@@ -245,10 +245,25 @@ def r3_entry_points(ctx):
     import c06
     from c08 import ProxyCtx
     c06.r2_evaluators(ProxyCtx(ctx, "C06.R2", "C05.R3"))
-    # offspring wrappers
+    # offspring wrappers: into_individuals(solutions) = the same solutions, in order, as UNEVALUATED individuals (K6)
+    from absint import Interp, Sym, Agg, std_oracle, chain
+    from collmodel import coll_oracle, install, Vec
     fn = [f for f in F.all_fns if f.key.endswith("as mahf::population::IntoIndividuals>::into_individuals")]
-    good = len(fn) == 1 and {c["key"] for (_f, _b, c) in F.fn_refs(lambda c: c.get("key", "").startswith(IND + "::")) if _f is fn[0]} == {IND + "::new_unevaluated"}
-    ctx.check(good, "C05.R3", "IntoIndividuals::into_individuals", "wraps-unevaluated", "into_individuals does not wrap solutions with Individual::new_unevaluated")
+    good = len(fn) == 1
+    why = "%d implementations" % len(fn)
+    if good:
+        for n_ in range(0, 4):
+            it = install(Interp(fn[0].body, chain(coll_oracle, std_oracle), [Vec("sols")], facts=F,
+                                inline=lambda k: k.startswith(IND + "::") or k.startswith("<" + IND) or k.startswith("mahf::population::") or "as mahf::population::" in k, max_visits=12))
+            it.init_state = {"heap": {"sols": tuple(Sym("s%d" % i) for i in range(n_))}, "next_vec": 0}
+            for p in it.run():
+                items = p.mstate.get("heap", {}).get(getattr(p.ret, "vid", None), None) if p.end == "return" else None
+                got = [(getattr(x.fields[0], "tag", "?"), x.fields[1].variant if isinstance(x.fields[1], Agg) else "?") if isinstance(x, Agg) and x.name == IND else ("?", "?") for x in items] if items is not None else None
+                want = [("s%d" % i, "None") for i in range(n_)]
+                if got != want:
+                    good = False
+                    why = "%d solutions become %s, expected %s" % (n_, got, want)
+    ctx.check(good, "C05.R3", "IntoIndividuals::into_individuals", "wraps-unevaluated", "into_individuals does not wrap the solutions, in order, as unevaluated individuals: %s" % why)
 
 
 def run(ctx):
